@@ -21,6 +21,12 @@ let () =
         let (((sb, o), n), u) = super_and_bgd_loc s (n_of_int g) in
         Printf.printf "%d %d %d %d %d %d\n" g (if bg_has_super s (n_of_int g) then 1 else 0) (int_of_n sb) (int_of_n o) (int_of_n n) (int_of_n u)
       done;
+      let fdb = v 10 and bpg = v 11 in
+      let bc = n_of_int (fdb + v 13 * bpg) in
+      for i = 0 to v 8 - 1 do
+        Printf.printf "D %d %d %d\n" i (int_of_n (descriptor_block_loc s bc (n_of_int fdb) (n_of_int i)))
+          (int_of_n (descriptor_block_loc s bc (n_of_int (fdb + bpg)) (n_of_int i)))
+      done;
       print_endline "END"
     | "L" ->
       List.iter (fun x -> Printf.printf "%d\n" (int_of_n x))
